@@ -92,10 +92,16 @@ Qed.
 (* ==================================================================================================== *)
 
 Definition same_fz (m m' : nmem) : Prop :=
-  n_fld m' = n_fld m /\ n_farr m' = n_farr m /\ n_count m' = n_count m /\ n_z0 m' = n_z0 m /\ n_z0n m' = n_z0n m.
-Lemma same_fz_refl : forall m, same_fz m m. Proof. unfold same_fz; auto. Qed.
+  n_fld m' = n_fld m /\ n_farr m' = n_farr m /\ n_count m' = n_count m /\ n_z0 m' = n_z0 m /\
+  (n_z0n m' = n_z0n m /\ n_log m' = n_log m).
+Definition same_tz (m m' : nmem) : Prop :=
+  n_text m' = n_text m /\ n_tarr m' = n_tarr m /\ n_size m' = n_size m /\ n_z0 m' = n_z0 m /\
+  (n_z0n m' = n_z0n m /\ n_log m' = n_log m).
+Definition same_z (m m' : nmem) : Prop := n_z0 m' = n_z0 m /\ (n_z0n m' = n_z0n m /\ n_log m' = n_log m).
+Ltac szt := unfold same_z, same_fz, same_tz in *; simpl in *; intuition congruence.
+Lemma same_fz_refl : forall m, same_fz m m. Proof. unfold same_fz; repeat split; reflexivity. Qed.
 Lemma same_fz_trans : forall a b c, same_fz a b -> same_fz b c -> same_fz a c.
-Proof. unfold same_fz; intros a b c (A1&A2&A3&A4&A5) (B1&B2&B3&B4&B5). repeat split; congruence. Qed.
+Proof. unfold same_fz; intros a b c (A1&A2&A3&A4&A5&A6) (B1&B2&B3&B4&B5&B6). repeat split; congruence. Qed.
 
 Lemma ninv_same_ids : forall m s s', NInv m s -> wf s' -> ids s' = ids s -> NInv m s'.
 Proof. intros m s s' (L&T&F) Hw He. split; [eapply nled_same_ids; eauto | auto]. Qed.
@@ -128,7 +134,7 @@ Proof.
       + destruct Hp as (Hb&Hnb&Hfr&Hi1). apply safe_ret.
         assert (Hna : calloc (n_tarr m) <= na /\ Z.of_nat (n_size m) < na) by (unfold na, arr_ok in *; lia).
         destruct (grow_ok _ (n_tarr m) na Ta ltac:(lia)) as (Ga&Gc&Gi).
-        split; [|split; [reflexivity|split; [unfold nset_text; cbn [n_tarr]; rewrite Gc; lia | unfold same_fz; simpl; auto]]].
+        split; [|split; [reflexivity|split; [unfold nset_text; cbn [n_tarr]; rewrite Gc; lia | szt]]].
         split; [|split; [|exact F]].
         * destruct (nled_swap [] (n_text m) (olist (n_fld m) ++ olist (n_z0 m)) s s1 b Hw Hnd Hiff Hw1 Hnb Hi1) as (A&B).
           split; [exact Hw1|]. split; [exact A | exact B].
@@ -148,7 +154,7 @@ Proof.
   split; [|split; [simpl; lia|]].
   - split; [eapply nled_same_ptrs; eauto|]. split; [|exact F].
     unfold NText; simpl. split; [exact Ha'|]. split; [rewrite Hc'; lia|]. split; [eapply wr_initp_ext; eauto | discriminate].
-  - destruct Hs as (A1&A2&A3&A4&A5). unfold same_fz; simpl. auto.
+  - szt.
 Qed.
 
 Lemma safe_add_chars_n : forall t m s, NInv m s ->
@@ -163,9 +169,6 @@ Proof.
       intros r s2 (H2&Hs2&Hz). split; [exact H2|]. split; [eapply same_fz_trans; eauto|]. intro Ht. rewrite (Hz Ht). lia.
     + apply safe_ret. split; [exact H|]. split; [apply same_fz_refl | simpl; discriminate].
 Qed.
-
-Definition same_tz (m m' : nmem) : Prop :=
-  n_text m' = n_text m /\ n_tarr m' = n_tarr m /\ n_size m' = n_size m /\ n_z0 m' = n_z0 m /\ n_z0n m' = n_z0n m.
 
 Lemma safe_start_field_n : forall m s, NInv m s ->
   safe (start_field_n m) s (fun o s' =>
@@ -198,14 +201,14 @@ Proof.
       + destruct Hp as (Hb&Hnb&Hfr&Hi1). apply safe_ret.
         assert (Hna : calloc (n_farr m) <= na /\ Z.of_nat (n_count m) < na) by (unfold na, arr_ok in *; lia).
         destruct (grow_ok _ (n_farr m) na Fa ltac:(lia)) as (Ga&Gc&Gi).
-        split; [|split; [unfold same_tz; simpl; auto|split; [reflexivity|split; [unfold nset_fld; cbn [n_farr]; rewrite Gc; lia|]]]].
+        split; [|split; [szt|split; [reflexivity|split; [unfold nset_fld; cbn [n_farr]; rewrite Gc; lia|]]]].
         * split; [|split; [exact T|]].
           -- destruct (nled_swap (olist (n_text m)) (n_fld m) (olist (n_z0 m)) s s1 b Hw Hnd Hiff Hw1 Hnb Hi1) as (A&B).
              split; [exact Hw1|]. split; [exact A | exact B].
           -- unfold NFld, nset_fld; cbn [n_farr n_count n_fld]. split; [exact Ga|]. split; [rewrite Gc; lia | discriminate].
         * intros j Hj. simpl. rewrite nth_error_app1; auto. unfold arr_ok in Fa. lia.
       + destruct Hp as (Hids&_). apply safe_ret. eapply ninv_same_ids; eauto.
-    - apply safe_ret. split; [exact HI0|]. split; [unfold same_tz; auto|]. split; [reflexivity|]. split; [lia | auto]. }
+    - apply safe_ret. split; [exact HI0|]. split; [szt|]. split; [reflexivity|]. split; [lia | auto]. }
   eapply safe_weaken; [exact H1|]. clear H1.
   intros [m'|] s1; [|intro H; apply safe_ret; exact H].
   intros (HI'&Hs&Hc&Hroom&Hold). destruct HI' as (L&T&F). destruct F as (Fa&Fl&Fn).
@@ -216,7 +219,7 @@ Proof.
   { unfold arr_ok in Fa. lia. }
   eapply safe_lift; [exact Hwr|]. apply safe_ret.
   destruct Hs as (S1&S2&S3&S4&S5).
-  split; [|split; [unfold same_tz; simpl; auto|split; [simpl; auto|split; [simpl; rewrite Hc'; lia|split]]]].
+  split; [|split; [szt|split; [simpl; auto|split; [simpl; rewrite Hc'; lia|split]]]].
   - split; [eapply nled_same_ptrs; eauto|]. split; [exact T|].
     unfold NFld; simpl. split; [exact Ha'|]. split; [rewrite Hc'; lia | try rewrite Eb; discriminate].
   - simpl. rewrite <- Hc, <- S3. exact Hsame.
@@ -225,7 +228,6 @@ Qed.
 
 (* ==================================================================================================== *)
 
-Definition same_z (m m' : nmem) : Prop := n_z0 m' = n_z0 m /\ n_z0n m' = n_z0n m.
 
 Lemma safe_end_field_fixed : forall m s, NInv m s -> Z.of_nat (n_count m) < calloc (n_farr m) ->
   safe (end_field_n NFixed m) s (fun r s' => NInv (snd r) s' /\ same_z m (snd r) /\
@@ -234,12 +236,12 @@ Proof.
   intros m s HI Hroom. unfold end_field_n. apply safe_bind. eapply safe_weaken; [apply safe_add_char_n; exact HI|].
   intros [m'|] s1 H.
   - destruct H as (HI'&Hsz&(S1&S2&S3&S4&S5)). apply safe_ret. simpl.
-    split; [|split; [split; auto|intros _; split; [exact Hsz|split; [congruence|exact S2]]]].
+    split; [|split; [szt|intros _; split; [exact Hsz|split; [congruence|exact S2]]]].
     destruct HI' as (L&T&F). split; [eapply nled_same_ptrs; eauto|]. split; [exact T|].
     destruct F as (Fa&Fl&Fn). unfold NFld; simpl. split; [exact Fa|]. split; [|exact Fn].
     (* room for the count: the offset cell of this field was stored by start_field *)
     rewrite S2, S3 in *. lia.
-  - apply safe_ret. simpl. split; [exact H|]. split; [split; auto | discriminate].
+  - apply safe_ret. simpl. split; [exact H|]. split; [szt | discriminate].
 Qed.
 
 Lemma rd_val : forall A (a : carray A) i v, arr_ok a -> nth_error (cells a) i = Some (Init v) ->
@@ -277,27 +279,27 @@ Proof.
     intros [ok m2] s2 (HI2&(F1&F2&F3&F4&F5)&Hsz). simpl in *. destruct ok; simpl.
     + eapply safe_weaken; [apply safe_end_field_fixed; [exact HI2 | rewrite F2, F3, Hc1; exact Hroom]|].
       intros [ok3 m3] s3 (HI3&(Z1&Z2)&H3). simpl in *.
-      split; [exact HI3|]. split; [split; congruence|]. intro Hok. destruct (H3 Hok) as (A&B&C).
+      split; [exact HI3|]. split; [szt|]. intro Hok. destruct (H3 Hok) as (A&B&C).
       eapply scanned_app; eauto.
       * rewrite B, F3, Hc1. reflexivity.
       * rewrite A, (Hsz eq_refl), T3. lia.
       * rewrite C, F2. exact Hcell.
       * intros j Hj. rewrite C, F2. apply Hold; exact Hj.
-    + apply safe_ret. simpl. split; [exact HI2|]. split; [split; congruence | discriminate].
-  - apply safe_ret. simpl. split; [exact H|]. split; [split; auto | discriminate].
+    + apply safe_ret. simpl. split; [exact HI2|]. split; [szt | discriminate].
+  - apply safe_ret. simpl. split; [exact H|]. split; [szt | discriminate].
 Qed.
 
 Lemma safe_fields_fixed : forall fs m s pre, NInv m s -> Scanned m pre ->
   safe (fields_n NFixed m fs) s (fun r s' => NInv (snd r) s' /\ same_z m (snd r) /\ (fst r = true -> Scanned (snd r) (pre ++ fs))).
 Proof.
   induction fs as [|f fs IH]; intros m s pre HI HS; simpl.
-  - apply safe_ret. simpl. split; [exact HI|]. split; [split; auto|]. intros _. rewrite app_nil_r. exact HS.
+  - apply safe_ret. simpl. split; [exact HI|]. split; [szt|]. intros _. rewrite app_nil_r. exact HS.
   - apply safe_bind. eapply safe_weaken; [apply safe_field_fixed; eauto|].
     intros [ok m1] s1 (HI1&(Z1&Z2)&H1). simpl in *. destruct ok.
     + eapply safe_weaken; [apply (IH m1 s1 (pre ++ [f])); [exact HI1 | apply H1; reflexivity]|].
-      intros r s2 (HI2&(Y1&Y2)&H2). split; [exact HI2|]. split; [split; congruence|].
+      intros r s2 (HI2&(Y1&Y2)&H2). split; [exact HI2|]. split; [szt|].
       intro Hok. rewrite <- app_assoc in H2. apply H2. exact Hok.
-    + apply safe_ret. simpl. split; [exact HI1|]. split; [split; auto | discriminate].
+    + apply safe_ret. simpl. split; [exact HI1|]. split; [szt | discriminate].
 Qed.
 
 Lemma safe_scan_line_fixed : forall line m s, NInv m s ->
@@ -471,7 +473,7 @@ Lemma safe_z0_alloc : forall m p s, NInv m s -> n_z0 m = None ->
     match o with
     | None => NInv m s'
     | Some m' => NInv m' s' /\ n_z0 m' <> None /\ n_text m' = n_text m /\ n_tarr m' = n_tarr m /\ n_size m' = n_size m /\
-                 n_fld m' = n_fld m /\ n_farr m' = n_farr m /\ n_count m' = n_count m
+                 n_fld m' = n_fld m /\ n_farr m' = n_farr m /\ n_count m' = n_count m /\ n_log m' = n_log m
     end).
 Proof.
   intros m p s HI Hz. unfold z0_alloc_n. pose proof HI as (L&T&F). pose proof L as (Hw&Hnd&Hiff).
@@ -503,7 +505,7 @@ Qed.
 Definition hm_post (m : nmem) (line : list (list N)) (o : option nmem) (s' : astate) : Prop :=
   match o with
   | None => NInv m s'
-  | Some m' => NInv m' s' /\ Scanned m' line /\ (n_z0 m <> None -> n_z0 m' <> None)
+  | Some m' => NInv m' s' /\ Scanned m' line /\ (n_z0 m <> None -> n_z0 m' <> None) /\ n_log m' = n_log m
   end.
 
 Lemma safe_header_mem : forall h k line m s, NInv m s -> Scanned m line -> line <> [] ->
@@ -533,14 +535,14 @@ Proof.
     assert (Ha : safe (match n_z0 m with Some _ => ret (Some m) | None => z0_alloc_n m p end) s
                    (fun o s1 => match o with
                                 | None => NInv m s1
-                                | Some m' => NInv m' s1 /\ Scanned m' line /\ n_z0 m' <> None
+                                | Some m' => NInv m' s1 /\ Scanned m' line /\ n_z0 m' <> None /\ n_log m' = n_log m
                                 end)).
     { destruct (n_z0 m) as [b|] eqn:Ez.
-      - apply safe_ret. split; [exact HI|]. split; [exact HS | rewrite Ez; discriminate].
+      - apply safe_ret. split; [exact HI|]. split; [exact HS | split; [rewrite Ez; discriminate | reflexivity]].
       - eapply safe_weaken; [apply safe_z0_alloc; auto|]. intros [m'|] s1 H; [|exact H].
-        destruct H as (A&B&C1&C2&C3&C4&C5&C6). split; [exact A|]. split; [eapply scanned_same; eauto | exact B]. }
+        destruct H as (A&B&C1&C2&C3&C4&C5&C6&C7). split; [exact A|]. split; [eapply scanned_same; eauto | split; [exact B | exact C7]]. }
     eapply safe_weaken; [exact Ha|]. intros [m'|] s1 H; [|apply safe_ret; exact H].
-    destruct H as (A&B&C). apply safe_bind.
+    destruct H as (A&B&C&C').  apply safe_bind.
     destruct line as [|f0 rest]; [congruence|].
     eapply safe_weaken; [apply safe_read_strs; eauto; simpl; lia|]. intros u s2 He. rewrite He.
     apply safe_bind. eapply safe_weaken; [apply safe_touch_z0; eauto|]. intros u2 s3 He3. rewrite He3.
@@ -551,16 +553,16 @@ Lemma safe_post_header_mem : forall x m s line, NInv m s -> Scanned m line ->
   safe (post_header_mem x m) s (fun o s' =>
     match o with
     | None => NInv m s'
-    | Some m' => NInv m' s' /\ Scanned m' line /\ (x_fz0 x = true -> n_z0 m' <> None)
+    | Some m' => NInv m' s' /\ Scanned m' line /\ (x_fz0 x = true -> n_z0 m' <> None) /\ n_log m' = n_log m
     end).
 Proof.
   intros x m s line HI HS. unfold post_header_mem. destruct (n_z0 m) as [b|] eqn:Ez.
   - apply safe_bind. apply safe_touch; [destruct HI as (L&_); eapply nled_z0_live; eauto|].
-    apply safe_ret. assert (He : s = s) by reflexivity.  split; [exact HI|]. split; [exact HS | intros _; rewrite Ez; discriminate].
+    apply safe_ret. assert (He : s = s) by reflexivity.  split; [exact HI|]. split; [exact HS | split; [intros _; rewrite Ez; discriminate | reflexivity]].
   - destruct (x_fz0 x) eqn:Ef.
     + eapply safe_weaken; [apply safe_z0_alloc; auto|]. intros [m'|] s1 H; [|exact H].
-      destruct H as (A&B&C1&C2&C3&C4&C5&C6). split; [exact A|]. split; [eapply scanned_same; eauto | intros _; exact B].
-    + apply safe_ret. split; [exact HI|]. split; [exact HS | discriminate].
+      destruct H as (A&B&C1&C2&C3&C4&C5&C6&C7). split; [exact A|]. split; [eapply scanned_same; eauto | split; [intros _; exact B | exact C7]].
+    + apply safe_ret. split; [exact HI|]. split; [exact HS | split; [discriminate | reflexivity]].
 Qed.
 
 Lemma safe_data_mem : forall x d line m s, NInv m s -> Scanned m line -> ctx_bounds x ->
@@ -587,7 +589,8 @@ Definition NLink (st : nmst) (m : nmem) : Prop :=
   | NRun (NData x d) => ctx_bounds x /\ (x_fz0 x = true -> n_z0 m <> None)
   | _ => True
   end.
-Definition NSInv (st : nmst * nmem) (s : astate) : Prop := NInv (snd st) s /\ NLink (fst st) (snd st).
+Definition LogOk (m : nmem) : Prop := forallb prec_ok (n_log m) = true.
+Definition NSInv (st : nmst * nmem) (s : astate) : Prop := NInv (snd st) s /\ NLink (fst st) (snd st) /\ LogOk (snd st).
 
 Lemma data_step_ctx : forall x d r, match data_step x d r with NData x' _ => x' = x | NErr _ => True | NHeader _ => False end.
 Proof.
@@ -606,50 +609,82 @@ Proof. intros m s e (L&T&F). split; [eapply nled_same_ptrs; eauto | split; [exac
 Lemma scanned_nlog : forall m line e, Scanned m line -> Scanned (nlog m e) line.
 Proof. intros m line e H. exact H. Qed.
 
+Lemma logok_nlog : forall m e, LogOk m -> forallb prec_ok e = true -> LogOk (nlog m e).
+Proof.
+  intros m e H He. unfold LogOk, nlog in *; simpl. rewrite forallb_app, H, andb_true_r.
+  rewrite forallb_forall in *. intros x Hx. apply He. apply in_rev. exact Hx.
+Qed.
+Lemma logok_same : forall m m', n_log m' = n_log m -> LogOk m -> LogOk m'.
+Proof. unfold LogOk; intros m m' E H. rewrite E. exact H. Qed.
+Lemma calls_prec_ok : forall l, forallb prec_ok (map NCall l) = true.
+Proof. induction l; simpl; auto. Qed.
+Lemma header_events_ok : forall k f, forallb prec_ok (header_events k f) = true.
+Proof.
+  intros k f. unfold header_events. destruct k; try reflexivity.
+  - destruct f as [|a [|b [|c r]]]; try reflexivity. destruct (set_format b); reflexivity.
+  - destruct (nnint f) as [z|]; [|reflexivity]. destruct ((z <? 1) || (1000 <? z)) eqn:E; [reflexivity|].
+    apply orb_false_iff in E. destruct E as [E _]. simpl. rewrite andb_true_r. apply Z.leb_le. apply Z.ltb_ge in E. exact E.
+  - destruct (nnint f) as [z|]; [|reflexivity]. destruct ((z <? 1) || (1000 <? z)) eqn:E; [reflexivity|].
+    apply orb_false_iff in E. destruct E as [E _]. simpl. rewrite andb_true_r. apply Z.leb_le. apply Z.ltb_ge in E. exact E.
+Qed.
+Lemma init_events_ok : forall x, forallb prec_ok (init_events x) = true.
+Proof. intro x. unfold init_events. apply calls_prec_ok. Qed.
+Lemma data_events_ok : forall x d l, forallb prec_ok (data_events x d l) = true.
+Proof. intros. unfold data_events. apply calls_prec_ok. Qed.
+
+Lemma nsinv_intro : forall st m s, NInv m s -> NLink st m -> LogOk m -> NSInv (st, m) s.
+Proof. intros; split; [assumption | split; assumption]. Qed.
+
 Lemma safe_nmstep : forall st line s, NSInv st s -> line <> [] ->
   safe (nmstep NFixed st line) s (fun st' s' => NSInv st' s').
 Proof.
-  intros [ms m] line s (HI&HL) Hne. simpl in HI, HL. unfold nmstep; cbn [fst snd].
-  destruct ms as [p|]; [|apply safe_ret; split; auto].
-  destruct p as [h|x d|c]; [| |apply safe_ret; split; auto].
+  intros [ms m] line s (HI&HL&HG) Hne. simpl in HI, HL, HG. unfold nmstep; cbn [fst snd].
+  destruct ms as [p|]; [|apply safe_ret; apply nsinv_intro; auto].
+  destruct p as [h|x d|c]; [| |apply safe_ret; apply nsinv_intro; auto].
   - (* header *)
     apply safe_bind. eapply safe_weaken; [apply safe_scan_line_fixed; exact HI|].
-    intros [ok m1] s1 (HI1&(Z1&Z2)&HS1). cbn [fst snd] in *. destruct ok; cbn [negb fst snd].
-    2:{ apply safe_ret. split; simpl; auto. }
+    intros [ok m1] s1 (HI1&(Z1&Z2&Z3)&HS1). cbn [fst snd] in *. destruct ok; cbn [negb fst snd].
+    2:{ apply safe_ret. apply nsinv_intro; [exact HI1 | exact I | eapply logok_same; eauto]. }
     specialize (HS1 eq_refl). apply safe_bind.
     eapply safe_weaken; [apply safe_classify; eauto|].
-    intros m2 s2 (He&HI2&HS2&(Y1&Y2)). subst s2.
+    intros m2 s2 (He&HI2&HS2&(Y1&Y2&Y3)). subst s2.
+    assert (HG2 : LogOk m2) by (eapply logok_same; [|exact HG]; congruence).
     destruct (record_of line) as [k flds|flds|] eqn:Er.
     + apply safe_bind. eapply safe_weaken; [apply safe_header_mem; eauto|].
       intros [m3|] s3 H; apply safe_ret.
-      * destruct H as (A&B&C). unfold nstep; rewrite ?Er.
-        destruct (hline_step h k flds); (split; cbn [fst snd]; [try apply ninv_nlog; exact A | exact I]).
-      * split; simpl; auto.
+      * destruct H as (A&B&C&C'). assert (HG3 : LogOk m3) by (eapply logok_same; eauto).
+        unfold nstep; rewrite ?Er.
+        destruct (hline_step h k flds); (apply nsinv_intro; [try apply ninv_nlog; exact A | exact I | try (apply logok_nlog; [exact HG3 | apply header_events_ok]); exact HG3]).
+      * apply nsinv_intro; [exact H | exact I | exact HG2].
     + destruct (post_header h) as [c|x] eqn:Ep.
-      * apply safe_ret. split; cbn [fst snd]; [exact HI2|]. unfold nstep; rewrite ?Er, ?Ep. exact I.
-      * apply safe_bind. eapply safe_weaken; [apply (safe_post_header_mem x _ s1 line); [apply ninv_nlog; exact HI2 | apply scanned_nlog; exact HS2]|].
-        intros [m3|] s3 H; [|apply safe_ret; split; simpl; auto].
-        destruct H as (A&B&C). pose proof (post_header_bounds h x Ep) as Hb.
+      * apply safe_ret. apply nsinv_intro; [exact HI2| |exact HG2]. unfold nstep; rewrite ?Er, ?Ep. exact I.
+      * assert (HG2' : LogOk (nlog m2 (init_events x))) by (apply logok_nlog; [exact HG2 | apply init_events_ok]).
+        apply safe_bind. eapply safe_weaken; [apply (safe_post_header_mem x _ s1 line); [apply ninv_nlog; exact HI2 | apply scanned_nlog; exact HS2]|].
+        intros [m3|] s3 H; [|apply safe_ret; apply nsinv_intro; [exact H | exact I | exact HG2']].
+        destruct H as (A&B&C&C'). pose proof (post_header_bounds h x Ep) as Hb.
+        assert (HG3 : LogOk m3) by (eapply logok_same; eauto).
         apply safe_bind. eapply safe_weaken; [apply safe_data_mem; eauto|].
-        intros u s4 He4. rewrite He4. apply safe_ret. split; cbn [fst snd]; [apply ninv_nlog; exact A|].
+        intros u s4 He4. rewrite He4. apply safe_ret. apply nsinv_intro; [apply ninv_nlog; exact A| |apply logok_nlog; [exact HG3 | apply data_events_ok]].
         unfold nstep; rewrite ?Er, ?Ep. apply nlink_data_step; auto.
-    + apply safe_ret. split; cbn [fst snd]; [exact HI2|]. unfold nstep; rewrite ?Er. exact I.
+    + apply safe_ret. apply nsinv_intro; [exact HI2| |exact HG2]. unfold nstep; rewrite ?Er. exact I.
   - (* data *)
     apply safe_bind. eapply safe_weaken; [apply safe_scan_line_fixed; exact HI|].
-    intros [ok m1] s1 (HI1&(Z1&Z2)&HS1). cbn [fst snd] in *. destruct ok; cbn [negb fst snd].
-    2:{ apply safe_ret. split; simpl; auto. }
+    intros [ok m1] s1 (HI1&(Z1&Z2&Z3)&HS1). cbn [fst snd] in *. destruct ok; cbn [negb fst snd].
+    2:{ apply safe_ret. apply nsinv_intro; [exact HI1 | exact I | eapply logok_same; eauto]. }
     specialize (HS1 eq_refl). apply safe_bind.
     eapply safe_weaken; [apply safe_classify; eauto|].
-    intros m2 s2 (He&HI2&HS2&(Y1&Y2)). subst s2.
+    intros m2 s2 (He&HI2&HS2&(Y1&Y2&Y3)). subst s2.
+    assert (HG2 : LogOk m2) by (eapply logok_same; [|exact HG]; congruence).
     destruct HL as (Hb&Hz).
     assert (Hz2 : x_fz0 x = true -> n_z0 m2 <> None) by (intro Hf; rewrite Y1, Z1; auto).
     apply safe_bind.
     assert (Hd : safe (match record_of line with RecData _ => data_mem x d line m2 | _ => ret tt end) s1 (fun _ s' => s' = s1)).
     { destruct (record_of line); try (apply safe_ret; reflexivity). apply safe_data_mem; auto. }
     eapply safe_weaken; [exact Hd|]. intros u s3 He3. rewrite He3. apply safe_ret.
-    split; cbn [fst snd].
+    apply nsinv_intro.
     + destruct (record_of line); try apply ninv_nlog; exact HI2.
     + apply nlink_data_step; auto. destruct (record_of line); exact Hz2.
+    + destruct (record_of line); try (apply logok_nlog; [exact HG2 | apply data_events_ok]); exact HG2.
 Qed.
 
 Lemma safe_nmrun : forall lines st s, NSInv st s -> Forall (fun l => l <> []) lines ->
@@ -660,19 +695,22 @@ Proof.
   - inversion Hf; subst. apply safe_bind. eapply safe_weaken; [apply safe_nmstep; eauto|]. intros st' s' H'. apply IH; auto.
 Qed.
 
-Lemma safe_nfinish_mem : forall st s, NSInv st s -> safe (nfinish_mem st) s (fun st' s' => NInv (snd st') s').
+Lemma safe_nfinish_mem : forall st s, NSInv st s -> safe (nfinish_mem st) s (fun st' s' => NInv (snd st') s' /\ LogOk (snd st')).
 Proof.
-  intros [ms m] s (HI&HL). unfold nfinish_mem; cbn [fst snd] in *.
-  destruct ms as [[h|x d|c]|]; try (apply safe_ret; exact HI).
-  destruct (post_header h) as [c|x]; [apply safe_ret; exact HI|].
+  intros [ms m] s (HI&HL&HG). unfold nfinish_mem; cbn [fst snd] in *.
+  destruct ms as [[h|x d|c]|]; try (apply safe_ret; split; [exact HI | exact HG]).
+  destruct (post_header h) as [c|x]; [apply safe_ret; split; [exact HI | exact HG]|].
   pose proof (ninv_nlog m s (init_events x) HI) as HI0.
+  assert (HG0 : LogOk (nlog m (init_events x))) by (apply logok_nlog; [exact HG | apply init_events_ok]).
   set (m0 := nlog m (init_events x)) in *.
   apply safe_bind.
   unfold post_header_mem. destruct (n_z0 m0) as [b|] eqn:Ez.
-  - apply safe_bind. apply safe_touch; [destruct HI0 as (L&_); eapply nled_z0_live; eauto|]. apply safe_ret. apply safe_ret. exact HI0.
+  - apply safe_bind. apply safe_touch; [destruct HI0 as (L&_); eapply nled_z0_live; eauto|]. apply safe_ret. apply safe_ret. split; [exact HI0 | exact HG0].
   - destruct (x_fz0 x).
-    + eapply safe_weaken; [apply safe_z0_alloc; auto|]. intros [m'|] s1 H; apply safe_ret; cbn [snd]; [apply H | exact H].
-    + apply safe_ret. apply safe_ret. exact HI0.
+    + eapply safe_weaken; [apply safe_z0_alloc; auto|]. intros [m'|] s1 H; apply safe_ret; cbn [snd].
+      * destruct H as (A&_&_&_&_&_&_&_&C7). split; [exact A | eapply logok_same; eauto].
+      * split; [exact H | exact HG0].
+    + apply safe_ret. apply safe_ret. split; [exact HI0 | exact HG0].
 Qed.
 
 Lemma safe_ncleanup : forall m s, NInv m s -> safe (ncleanup m) s (fun _ s' => live s' = []).
@@ -695,24 +733,30 @@ Proof.
 Qed.
 
 Theorem npd_mem_safe_lemma : forall bytes k,
-  safe (mem_load_npd NFixed bytes) (start k) (fun _ s' => live s' = []).
+  safe (mem_load_npd NFixed bytes) (start k)
+       (fun r s' => live s' = [] /\ forallb prec_ok (nr_calls (snd r)) = true).
 Proof.
   intros bytes k. unfold mem_load_npd. apply safe_bind.
   eapply safe_weaken; [apply safe_nmrun; [|apply npd_lines_nonempty]|].
-  - split; simpl; [|exact I]. split; [|split].
+  - split; simpl; [|split; [exact I | reflexivity]]. split; [|split].
     + unfold NLed, nblocks; simpl. split; [apply wf_start|]. split; [constructor | intro x; tauto].
     + unfold NText, arr_ok; simpl. split; [reflexivity|]. split; [lia|]. split; [intros i Hi; lia | reflexivity].
     + unfold NFld, arr_ok; simpl. split; [reflexivity|]. split; [lia | reflexivity].
   - intros st s1 H. apply safe_bind. eapply safe_weaken; [apply safe_nfinish_mem; exact H|].
-    intros st' s2 HI. apply safe_bind. eapply safe_weaken; [apply safe_ncleanup; exact HI|].
-    intros u s3 Hl. apply safe_ret. exact Hl.
+    intros st' s2 (HI&HG). apply safe_bind. eapply safe_weaken; [apply safe_ncleanup; exact HI|].
+    intros u s3 Hl. apply safe_ret. split; [exact Hl|]. cbn [snd nreport_of nr_calls].
+    unfold LogOk in HG. rewrite forallb_forall in *. intros x Hx. apply HG. apply in_rev. exact Hx.
 Qed.
 
 Theorem npd_no_fault_lemma : forall bytes k f, mem_load_npd NFixed bytes (start k) <> Fault f.
 Proof. intros bytes k f H. destruct (npd_mem_safe_lemma bytes k) as (a&s'&He&_). congruence. Qed.
 
 Theorem npd_no_leak_lemma : forall bytes k r s', mem_load_npd NFixed bytes (start k) = Alloc.Ok (r, s') -> live s' = [].
-Proof. intros bytes k r s' H. destruct (npd_mem_safe_lemma bytes k) as (a&s2&He&Hl). rewrite H in He. inversion He; subst. exact Hl. Qed.
+Proof. intros bytes k r s' H. destruct (npd_mem_safe_lemma bytes k) as (a&s2&He&Hl&_). rewrite H in He. inversion He; subst. exact Hl. Qed.
+
+(* every precision the loader has stored is >= 1 (fix DB91) *)
+Theorem npd_precisions_ok_lemma : forall bytes k r s', mem_load_npd NFixed bytes (start k) = Alloc.Ok (r, s') -> forallb prec_ok (nr_calls (snd r)) = true.
+Proof. intros bytes k r s' H. destruct (npd_mem_safe_lemma bytes k) as (a&s2&He&_&Hp). rewrite H in He. inversion He; subst. exact Hp. Qed.
 
 (* as found (before fix DB90): '#:ports' followed by a 73-character argument; the third request (the realloc that makes
    room for the NUL of that argument, at exactly 81 bytes) fails, end_field ignores it, expect_nnint_arg reads the
